@@ -445,9 +445,11 @@ func genCase(maxOps int) *rapid.Generator[Case] {
 }
 
 var historyProp = vp.Register(vp.Prop[Case]{
-	Kind:  "c09.history",
-	Base:  30000,
-	Gen:   func(t *rapid.T) Case { return genCase(map[bool]int{false: 40, true: 120}[vp.Thorough()]).Draw(t, "case") },
+	Kind: "c09.history",
+	Base: 30000,
+	Gen: func(t *rapid.T) Case {
+		return genCase(map[bool]int{false: 40, true: 120}[vp.Thorough()]).Draw(t, "case")
+	},
 	Check: checkHistory,
 })
 
@@ -554,6 +556,7 @@ var hugeProp = vp.Register(vp.Prop[Case]{
 })
 
 func TestHuge(t *testing.T) { vp.Run(t, hugeProp) }
+
 // TestConcurrent (variant "conc", -race): the sequential oracle from 8
 // goroutines at once, each on its own objects; objects of one type must not
 // share mutable state.
@@ -566,4 +569,4 @@ func TestConcurrent(t *testing.T) {
 
 func TestLongHistory(t *testing.T) { vp.Run(t, longProp) }
 func TestHistory(t *testing.T)     { vp.Run(t, historyProp) }
-func TestReplay(t *testing.T)  { vp.Replay(t) }
+func TestReplay(t *testing.T)      { vp.Replay(t) }
